@@ -10,6 +10,25 @@ LEVEL_NOTE = ('decides (part): pruning bound only ever assigned an under-estimat
 IDS = {'unwrap': 'R3.2', 'bound': 'R3.2', 'formula': 'R3.2', 'cmp': 'R3.1', 'block': 'R3.2', 'once': 'R3.2', 'prefilter': 'R3.1', 'down': 'R3.1'}
 
 
+def prefilter_conservative(db, ctx):
+    """The scanner only never loses a hit if the 8-bit pre-filter over-estimates: re-evaluate the C08 rules as part of this property."""
+    from . import C08
+    ctx.rule('R3.5', 'pre-filter is conservative (C08 rules R8.1-R8.3 re-evaluated): cells rounded up, threshold rounded down, every 8-bit accumulation saturates')
+    before, vb = len(ctx.obligations), len(ctx.violations)
+    C08.r81(db, ctx)
+    C08.r82(db, ctx)
+    C08.r83(db, ctx)
+    for o in ctx.obligations[before:]:
+        o['rule'] = 'R3.5'
+    for v in ctx.violations[vb:]:
+        v['key'] = v['key'].replace(v['rule'], 'R3.5', 1)
+        v['rule'] = 'R3.5'
+    for k in ('R8.1', 'R8.2', 'R8.3', 'R8.3i'):
+        ctx.rules_text.pop(k, None)
+        if k in ctx.floors:
+            ctx.floors['R3.5-' + k] = ctx.floors.pop(k)
+
+
 def run(db, ctx):
     ctx.rule('R3.1', 'the 8-bit pruning bound is only ever an under-estimate: scale(exact score); 8-bit tests are inclusive')
     ctx.rule('R3.2', 'R2.1/R2.2/R2.3/R2.5 on Scanner::max')
@@ -94,3 +113,4 @@ def run(db, ctx):
         else:
             ctx.fail('R3.4', f, 'update of best', 'reason=unrecognised-shape: update not under a test of whether a best exists')
     ctx.floor('R3.4', n_upd, 1, 'updates of best from rescored candidates')
+    prefilter_conservative(db, ctx)
